@@ -6,8 +6,9 @@
 #include "pgm/pgm_index_variants.hpp"
 #include <dirent.h>
 
-extern "C" int omp_get_num_procs(void) noexcept { return 1; }
-extern "C" int omp_get_max_threads(void) noexcept { return 1; }
+static int g_chunks = 1;   // answered to the library's omp_get_num_procs / omp_get_max_threads (chunks run sequentially)
+extern "C" int omp_get_num_procs(void) noexcept { return g_chunks; }
+extern "C" int omp_get_max_threads(void) noexcept { return g_chunks; }
 
 #ifdef VERIF_ASAN
 extern "C" void __asan_on_error() {
@@ -121,6 +122,25 @@ struct Explorer {
             check_c11(data, desc);
         }
     }
+    // large-input families shared with the search engine (chunked construction: seam windows, long duplicate runs)
+    void large_family(const ks::FamilySpec &spec) {
+        std::vector<K> data, queries;
+        if (!ks::generate_family<K>(spec, E, data, queries)) return;
+        g_chunks = int(spec.chunks);
+        std::string desc = "family=" + spec.str();
+        std::string cs = case_of(desc, "");
+        run.set_case(cs);
+        run.add(cn.arrays); run.add(cn.nontrivial);
+        std::string f = g_dir + "/fam.bin";
+        try {
+            Index ix(data.begin(), data.end(), f);
+            run.add(cn.containers);
+            battery(ix, data, queries, cs, "range-created container");
+        } catch (const std::exception &e) { run.violation(cs, std::string("construction threw on valid data: ") + e.what()); }
+        close_leaked_fds();
+        unlink(f.c_str());
+        g_chunks = 1;
+    }
     static std::vector<K> runs_data(const std::string &spec) {
         auto p = mc::split(spec, ','); std::vector<K> data; K v = 5; int gaps = atoi(p[3].c_str() + 4);
         auto add = [&](size_t len, bool far) { if (len == 0) return; v = K(v + (far ? 1000 : 1)); for (size_t i = 0; i < len; ++i) data.push_back(v); };
@@ -200,6 +220,7 @@ struct Explorer {
 
     void replay(const std::map<std::string, std::string> &m) {
         std::vector<K> data; std::string desc;
+        if (m.count("family")) { large_family(ks::FamilySpec::parse(m.at("family"))); return; }
         if (m.count("runs")) { data = runs_data(m.at("runs")); desc = "runs=" + m.at("runs"); }
         else { data = mc::parse_keys<K>(m.at("data")); desc = "data=" + m.at("data"); }
         printf("replay: cfg=%s n=%zu\n", cfg, data.size());
@@ -208,7 +229,7 @@ struct Explorer {
     }
 };
 
-struct Task { int cfg, kind, palette, len, first; size_t l0; };
+struct Task { int cfg, kind, palette, len, first; size_t l0; long p = 1, seam = 0, w_lo = 0, w_hi = 0, rep = 1; };
 struct CfgEntry {
     const char *name; int tier; int npalettes;
     void (*run)(Run &, Cn &, int prop, const Task &, int hist_len);
@@ -219,7 +240,13 @@ struct Thunk {
     static const char *&name() { static const char *n = ""; return n; }
     static void run(Run &r, Cn &c, int prop, const Task &t, int hist_len) {
         Explorer<K, E, R> ex{r, c, prop, name()}; ex.hist_len = hist_len;
-        if (t.kind == 0) ex.small_scope(t.palette, t.len, t.first); else ex.run_family(t.l0);
+        if (t.kind == 0) ex.small_scope(t.palette, t.len, t.first);
+        else if (t.kind == 1) ex.run_family(t.l0);
+        else if (t.kind == 2) {
+            for (long w = t.w_lo; w < t.w_hi && !r.deadline_passed(); w += 4) { ks::FamilySpec s; s.kind = "seam"; s.n = 32768; s.chunks = t.p; s.seam = 0; s.word = w; if (w == t.w_lo + 8) r.sample(ex.case_of("family=" + s.str(), "")); ex.large_family(s); }
+        } else {
+            for (long so : {-2L, -1L, 0L, 1L}) for (long eo : {-3L, -2L, -1L, 0L, 1L}) { if (r.deadline_passed()) break; ks::FamilySpec s; s.kind = "longrun"; s.n = 32768; s.chunks = t.p; s.seam = t.seam; s.rep = t.rep; s.width = so; s.word = eo; ex.large_family(s); }
+        }
     }
     static void replay(Run &r, Cn &c, int prop, const std::map<std::string, std::string> &m) { Explorer<K, E, R>{r, c, prop, name()}.replay(m); }
 };
@@ -268,6 +295,21 @@ int main(int argc, char **argv) {
             if (cfgs[c].tier == 1 && !thorough) continue;
             for (size_t l0 = 0; l0 < 16; ++l0) tasks.push_back({int(c), 1, 0, 0, 0, l0});
         }
+    // chunked construction (n = 2^15, 2 and 20 chunks): seam-window words (every 4th) and long duplicate runs, 32/64-bit configurations
+    if (prop == 11) {
+        bool asan_build = false;
+#ifdef VERIF_ASAN
+        asan_build = true;
+#endif
+        for (size_t c = 0; c < cfgs.size(); ++c) {
+            if (cfgs[c].tier == 1 && !thorough) continue;
+            if (c == 0 || (asan_build && !thorough)) continue;   // int16 cannot hold 2^15 keys of the family
+            for (long p : {2L, 20L}) {
+                for (long w = 0; w < 4096; w += 256) { Task t{int(c), 2, 0, 0, 0, 0}; t.p = p; t.w_lo = w; t.w_hi = w + 256; tasks.push_back(t); }
+                for (long j = 0; j < p; ++j) { if (p == 20 && !thorough && j > 1 && j < 18) continue; for (long len : {1L, 2L}) { if (j + len > p) continue; Task t{int(c), 3, 0, 0, 0, 0}; t.p = p; t.seam = j; t.rep = len; tasks.push_back(t); } }
+            }
+        }
+    }
     run.run_tasks(tasks.size(), [&](uint64_t i) {
         if (run.deadline_passed()) return;
         if (g_dir.empty()) { make_dir(); atexit(remove_dir); }
@@ -280,7 +322,7 @@ int main(int argc, char **argv) {
     mc::Run::EvidenceExtra ev;
     ev.states_counter = prop == 12 ? "history_steps_checked" : "arrays_stored"; ev.transitions_counter = "query_batteries_key_checked"; ev.nontrivial_counter = "arrays_with_2plus_distinct_keys";
     ev.rule = prop == 11
-        ? "every non-decreasing sequence of length 1.." + std::to_string(N) + " over four 10-value palettes (signed and unsigned key types, values at lowest()/max-1) and the run family (up to three runs with lengths from {0,1,2,3,4,5,7,8,9,15,16,17,2E+1,2E+2,2E+3,4E+5}, adjacent or 1000 apart, last run ending at n) is stored in a real MappedPGMIndex (file in a scratch directory); for every query of the alphabet lower_bound, upper_bound, count, contains are compared with the std algorithms, begin()/end()/size() with the vector. State = one stored array; transition = one query key; non-trivial = at least two distinct keys."
+        ? "every non-decreasing sequence of length 1.." + std::to_string(N) + " over four 10-value palettes (signed and unsigned key types, values at lowest()/max-1) and the run family (up to three runs with lengths from {0,1,2,3,4,5,7,8,9,15,16,17,2E+1,2E+2,2E+3,4E+5}, adjacent or 1000 apart, last run ending at n) and, for chunked construction, the seam-window family (n=2^15, 2 and 20 chunks, every 4th of the 4096 window words at every seam and at the tail) and the long-run family (a duplicate run from around a chunk start to around a chunk end) is stored in a real MappedPGMIndex (file in a scratch directory); for every query of the alphabet lower_bound, upper_bound, count, contains are compared with the std algorithms, begin()/end()/size() with the vector. State = one stored array; transition = one query key; non-trivial = at least two distinct keys."
         : "for every non-decreasing sequence of length 1.." + std::to_string(N) + " over the palettes (first key negative, zero, positive): every history of exactly " + std::to_string(hist_len) + " steps over {R: create f1 from the range, W: create f2 from a raw key file, O1/O2: reopen f1/f2, X<i>: destroy the i-th live object} respecting file existence; after every step every live object answers the full C11 battery, f1 and f2 are byte-identical, a reopened object's index members equal its creator's, and no file changed. State = one history step; non-trivial arrays have at least two distinct keys.";
     ev.bounds = "N<=" + std::to_string(N) + (prop == 12 ? ", history length " + std::to_string(hist_len) : "") + "; configurations mapped<i16,1,0> mapped<u32,1,1> mapped<i64,2,1>" + (thorough ? " mapped<u32,4,4> mapped<i64,128,4> mapped<u64,1,2> mapped<i32,3,0>" : "");
     ev.assumptions = {"files live in a per-worker scratch directory on /dev/shm (or TMPDIR)", "the harness closes the descriptors that MappedPGMIndex::map_file leaks (the mappings stay valid)"};
